@@ -3,6 +3,7 @@ import PercevalModel.SimProto
 import PercevalModel.Model.C09
 import PercevalModel.Model.C09Run
 import PercevalModel.Model.C09Conv
+import PercevalModel.Model.C09Iter
 
 open Lean PM PM.Proto PM.C09
 
@@ -181,6 +182,29 @@ def runLazyCheck (i : RunIn) : Option (List Fock × Nat × Nat × Nat) :=
     | none => none
   | _, _ => none
 
+
+/-! ### Sampler iterations (`Model/C09Iter.lean`) -/
+
+def scfgOfJson (j : Json) : Except String SCfg := do
+  return ⟨← optNat j "ms", ← optNat j "sh", ← optNat j "filter", ← natOf j "input", ← natOf j "noise",
+    ← natList (← j.getObjVal? "params")⟩
+
+def scfgJson (c : SCfg) : Json :=
+  Json.mkObj [("ms", optNatJson c.maxSamples), ("sh", optNatJson c.maxShots), ("filter", optNatJson c.filter),
+    ("input", toJson c.input), ("noise", toJson c.noise), ("params", toJson c.params)]
+
+def iterOfJson (n : Nat) (j : Json) : Except String Iter := do
+  let ps ← match (← j.getObjVal? "params") with
+    | .null => pure none
+    | v => do
+      let l ← (← v.getArr?).toList.mapM fun e => do
+        match e with
+        | .arr #[i, x] => pure (← i.getNat?, ← x.getNat?)
+        | _ => throw "bad parameter entry"
+      if l.any (fun iv => n ≤ iv.1) then throw "domain"
+      pure (some l)
+  return ⟨← optNat j "ms", ← optNat j "sh", ← optNat j "filter", ← optNat j "input", ← optNat j "noise", ps⟩
+
 def handleReq (j : Json) : Except String Json := do
   let op ← strOf j "op"
   match op with
@@ -335,6 +359,20 @@ def handleReq (j : Json) : Except String Json := do
     | .ok ps => return Json.mkObj [("probs", Json.arr (ps.map fun
         | none => Json.null
         | some q => ratToJson q).toArray)]
+  | "iterate" =>
+    let c ← scfgOfJson (← j.getObjVal? "cfg")
+    let its ← (← arrOf j "its").toList.mapM (iterOfJson c.params.length)
+    let fixed ← boolOf j "fixed"
+    match (← strOf j "kind") with
+    | "samples" =>
+      match samplesIterate fixed c (← optNat j "max_shots") (← optNat j "max_samples") its with
+      | .error e => return Json.mkObj [("raise", .str e)]
+      | .ok (calls, cf) =>
+        return Json.mkObj [("calls", Json.arr (calls.map scfgJson).toArray), ("final", scfgJson cf)]
+    | "probs" =>
+      let (calls, cf) := probsIterate fixed c (← optNat j "max_shots") its
+      return Json.mkObj [("calls", Json.arr (calls.map scfgJson).toArray), ("final", scfgJson cf)]
+    | k => throw s!"bad kind {k}"
   | "provconst" =>
     let n ← natOf j "n"
     return Json.mkObj [("ceilTenth", toJson ((List.range (n + 1)).map ceilTenth)),
